@@ -264,9 +264,11 @@ def abs_path(ctx):
                         why = "returns uri[0..] under starts_with('/') (%s)" % ok
                     elif sm is not None:
                         for a_, p_ in (sm, (sm[1], sm[0])):
-                            if const_of(a_) == 7:
+                            if const_of(a_) == 7 or (is_call(look(a_), "len") and const_of(look(a_)[2][0]) in ("http://", b"http://")):
                                 src = payload_of(p_)
                                 rest_ok = False
+                                if src is not None and src[0] == "call" and src[1].startswith("core::str::<impl str>::") and last_seg(src[1]) == "find" and const_of(src[2][1]) in (47, "/"):
+                                    rest_ok = after_scheme(src[2][0])
                                 if src is not None and is_call(src, "position"):
                                     it = look(src[2][0])
                                     while it[0] == "mut":
